@@ -24,10 +24,10 @@ TRUSTED = [
 ]
 ASSUMPTIONS = ['bases are normalised absolute http(s) URIs without fragment (the property\'s quantifier)']
 RULE = ('bases: normalised http(s) URIs with/without path, trailing slash, query; references: scheme-qualified, network-path, absolute-path, relative-path over '
-	'{".", "..", "", "g", "a.b", "..."}, query-only, fragment-only, empty; non-trivial = result differs from both base and reference text; distinct by result')
+	'{".", "..", "", "g", "a.b", "...", segments with an encoded slash in either letter case next to dots}, query-only, fragment-only, empty; non-trivial = result differs from both base and reference text; distinct by result')
 
 BASES = [u'http://a/b/c/d;p?q', u'http://a/b/c/d', u'http://a/b/c/', u'http://a', u'http://a/', u'https://h.example/x', u'http://a/b?x=1', u'https://u:p@h:8443/p/q/r', u'http://a/b/c/d/e/f/']
-RSEGS = [u'.', u'..', u'', u'g', u'a.b', u'...', u'h', u'g', u'h', u'x:', u'http:', u'a:b', u'@', u'a@b']
+RSEGS = [u'.', u'..', u'', u'g', u'a.b', u'...', u'h', u'g', u'h', u'x:', u'http:', u'a:b', u'@', u'a@b', u'x%2F..', u'%2F..', u'g%2Fh', u'y%2f..', u'..%2F', u'%2f']
 RFC_EXAMPLES = [u'g:h', u'g', u'./g', u'g/', u'/g', u'//g', u'?y', u'g?y', u'#s', u'g#s', u'g?y#s', u';x', u'g;x', u'g;x?y#s', u'', u'.', u'./', u'..', u'../', u'../g', u'../..', u'../../', u'../../g',
 	u'../../../g', u'../../../../g', u'/./g', u'/../g', u'g.', u'.g', u'g..', u'..g', u'./../g', u'./g/.', u'g/./h', u'g/../h', u'g;x=1/./y', u'g;x=1/../y', u'g?y/./x', u'g#s/./x', u'http:g', u'HTTP://X/./y']
 
@@ -127,6 +127,15 @@ def oracle(case):
 			return bytes(u).decode('latin-1')
 		except Exception as e:  # F15: hosts with empty/over-long labels cannot be composed; compare tuples only
 			return 'compose raised %s' % exc_name(e)
+	# the segments, read off the RFC result without the library's parser: an encoded slash stays inside its segment
+	import re as _re
+	from urllib.parse import unquote as _unq
+	if _re.search(u'%2[fF]', base + ref):
+		ts, ta, tp, tq, tf = rfc3986.resolve(base, ref, remove_dot_segments=lambda p: rfc3986.remove_dot_segments(rfc3986.collapse(p)))
+		if _re.match(u"^[A-Za-z0-9/._~;:@=-]*$", _re.sub(u'%2[fF]', u'', tp)):
+			want = [_unq(x) for x in tp.split(u'/')]
+			if list(got.path_segments) != want:
+				return {'what': 'the path segments of the result are %r, RFC 3986 5.2 gives %r (an encoded slash is data, not a separator)' % (list(got.path_segments), want), 'base': base, 'ref': ref, 'finding': 'F59' if rootless_dots(ref) else None}
 	if got.tuple != exp.tuple or text(got) != text(exp):
 		return {'what': 'join differs from RFC 3986 5.2.2 + normalisation', 'base': base, 'ref': ref, 'got': [text(got), list(got.tuple)], 'expected': [text(exp), list(exp.tuple)], 'finding': 'F59' if rootless_dots(ref) else None}
 	return None
